@@ -1,5 +1,6 @@
 import Lean.Data.Json
-import Verif.Model.Rpc
+import Verif.Model.RpcExt
+import Verif.Gen.Methods
 import Verif.Drv.Json
 open Lean
 -- DRIVER: rpc
@@ -96,6 +97,23 @@ def build (j : Json) : Except String (Except CErr Msg) := do
   | "notification" => return .ok (sendNotification (← getStr j "method") (← getObjOpt j "params"))
   | "dict_error" =>
     return .ok (dictError (← getIdOpt j "id") (← j.getObjValAs? Int "code") (← getStr j "message") (← getVal j "data"))
+  | "send_progress" =>
+    match ← getIdOpt j "token" with
+    | some t => return .ok (sendProgress (← getStr j "method") t (← getVal j "progress") (← getVal j "total") (← getVal j "message"))
+    | none => throw "send_progress needs a token"
+  | "send_cancelled" =>
+    match ← getIdOpt j "request_id" with
+    | some t => return .ok (sendCancelled (← getStr j "method") t (← getVal j "reason"))
+    | none => throw "send_cancelled needs a request id"
+  | "send_list_changed" => return .ok (sendListChanged (← getStr j "method"))
+  | "roots_list_response" =>
+    let arr ← (← j.getObjVal? "roots").getArr?
+    let mut roots : Array (Str × J) := #[]
+    for r in arr do
+      let pr ← r.getArr?
+      if pr.size != 2 then throw "bad root"
+      roots := roots.push (← cpsToChars pr[0]!, ← toModel pr[1]!)
+    return rootsListResponse (← getIdOpt j "id") roots.toList
   | "dict_empty_result" =>
     match ← getIdOpt j "id" with
     | some id => return .ok (dictEmptyResult id)
@@ -119,6 +137,128 @@ def handle (j : Json) : Except String Json := do
   | "parse" =>
     let v ← toModel (← j.getObjVal? "v")
     return Json.mkObj [("valid", Json.bool (valid v)), ("parse", parseJson v)]
+  | "methods" =>
+    let pairs (xs : List (String × String)) := Json.arr (xs.map fun (a, b) => Json.arr #[Json.str a, Json.str b]).toArray
+    return Json.mkObj [("translatable", Json.bool Verif.Gen.Methods.translatable), ("methods", pairs Verif.Gen.Methods.methods),
+      ("senders", pairs Verif.Gen.Methods.senders), ("handlers", pairs Verif.Gen.Methods.handlers),
+      ("defaults", Json.arr (Verif.Gen.Methods.defaults.map Json.str).toArray),
+      ("completionLimit", toJson Verif.Gen.Methods.completionLimit),
+      ("protocolErrorDefault", toJson Verif.Gen.Methods.protocolErrorDefault),
+      ("validationErrorDefault", toJson Verif.Gen.Methods.validationErrorDefault),
+      ("versionMismatchCode", toJson Verif.Gen.Methods.versionMismatchCode)]
+  | "handle" =>
+    let fn ← j.getObjValAs? String "fn"
+    let m ← getStr j "method"
+    let n ← match ← toModel (← j.getObjVal? "n") with
+      | .obj o => pure o
+      | _ => throw "notification must be an object"
+    let r ← match fn with
+      | "progress" => pure (handleProgress m n)
+      | "cancelled" => pure (handleCancelled m n)
+      | "logging" => pure (handleLogging m n)
+      | "list_changed" => pure (handleListChanged m n)
+      | "resources_updated" => pure (handleResourcesUpdated m n)
+      | _ => throw s!"unknown handler {fn}"
+    match r with
+    | .ok none => return Json.mkObj [("ok", Json.null)]
+    | .ok (some args) => return Json.mkObj [("ok", Json.arr (args.map ofModel).toArray)]
+    | .error _ => return Json.mkObj [("err", Json.str "raises")]
+  | "nh" =>
+    -- regs: [[method cps, tag]] registered in order; defaults: register_defaults first (tag 0)
+    let regs ← (← j.getObjVal? "regs").getArr?
+    let mut hs : List (Str × Int) := []
+    if (j.getObjValAs? Bool "defaults").toOption == some true then
+      hs := nhRegisterAll hs (Verif.Gen.Methods.defaults.map String.toList) 0
+    for r in regs do
+      let pr ← r.getArr?
+      if pr.size != 2 then throw "bad registration"
+      hs := nhRegister hs (← cpsToChars pr[0]!) (← pr[1]!.getInt?)
+    let n ← match ← toModel (← j.getObjVal? "n") with
+      | .obj o => pure o
+      | _ => throw "notification must be an object"
+    match nhHandle hs n with
+    | .ok none => return Json.mkObj [("ok", Json.null)]
+    | .ok (some t) => return Json.mkObj [("ok", toJson t)]
+    | .error _ => return Json.mkObj [("err", Json.str "raises")]
+  | "predicates" =>
+    let v ← toModel (← j.getObjVal? "v")
+    match parseMsg v with
+    | .ok w => return Json.mkObj [("is_request", Json.bool (isRequest w)), ("is_notification", Json.bool (isNotification w)),
+        ("is_response", Json.bool (isResponse w)), ("is_error_response", Json.bool (isErrorResponse w))]
+    | .error e => return Json.mkObj [("err", Json.str (perrStr e))]
+  | "vm_from" =>
+    match ← toModel (← j.getObjVal? "error") with
+    | .obj e =>
+      match versionMismatchFrom e with
+      | .ok (r, s) => return Json.mkObj [("requested", ofModel r), ("supported", ofModel s)]
+      | .error _ => return Json.mkObj [("err", Json.str "raises")]
+    | _ => throw "error must be an object"
+  | "sampling" =>
+    let approval : Option Bool := match j.getObjVal? "approval" with
+      | .ok (.bool b) => some b
+      | _ => none
+    let selected : Option J ← match j.getObjVal? "selected" with
+      | .ok v => (some <$> toModel v)
+      | .error _ => pure none
+    let prefs ← getVal j "prefs"
+    let provider : Option (J × J × J) ← match j.getObjVal? "provider" with
+      | .ok (.arr a) => if a.size == 3 then do pure (some (← toModel a[0]!, ← toModel a[1]!, ← toModel a[2]!)) else throw "bad provider"
+      | _ => pure none
+    match samplingResult approval selected prefs provider with
+    | .ok r => return Json.mkObj [("ok", ofModel (.obj r))]
+    | .error .rejected => return Json.mkObj [("err", Json.str "rejected")]
+    | .error .noProvider => return Json.mkObj [("err", Json.str "noProvider")]
+  | "roots_manager" =>
+    let steps ← (← j.getObjVal? "steps").getArr?
+    let mut st : List (Str × J) × Nat := ([], 0)
+    let mut resp : Array Json := #[]
+    for stp in steps do
+      let a ← stp.getArr?
+      let k ← a[0]!.getStr?
+      match k with
+      | "add" => st := rmStep st (.add (← cpsToChars a[1]!) (← toModel a[2]!))
+      | "remove" => st := rmStep st (.remove (← cpsToChars a[1]!))
+      | "clear" => st := rmStep st .clear
+      | "list" =>
+        let id ← getIdOpt (Json.mkObj [("id", a[1]!)]) "id"
+        match rootsListResponse id st.1 with
+        | .ok m => resp := resp.push (ofModel (emit m))
+        | .error _ => resp := resp.push Json.null
+      | _ => throw s!"unknown step {k}"
+    return Json.mkObj [("responses", Json.arr resp), ("notifications", toJson st.2)]
+  | "to_specific" =>
+    let v ← toModel (← j.getObjVal? "v")
+    match parseMsg v with
+    | .ok w => return Json.mkObj [("kind", match toSpecificKind w with | some k => Json.str (kindStr k) | none => Json.null)]
+    | .error e => return Json.mkObj [("err", Json.str (perrStr e))]
+  | "parse_batch" =>
+    let items ← (← j.getObjVal? "items").getArr?
+    let mut xs : Array J := #[]
+    for it in items do
+      xs := xs.push (← toModel it)
+    return Json.mkObj [("out", Json.str (match parseBatch xs.toList with
+      | .ok n => s!"ok:{n}" | .itemError => "itemError" | .mixed => "mixed"))]
+  | "enum" =>
+    let allowed ← (← j.getObjVal? "allowed").getArr?
+    let mut al : Array Str := #[]
+    for x in allowed do
+      al := al.push (← cpsToChars x)
+    let r := completeEnum (← j.getObjValAs? Bool "case_sensitive") (← getStr j "current") al.toList
+    return Json.mkObj [("values", Json.arr (r.map charsToCps).toArray)]
+  | "completion" =>
+    let n ← j.getObjValAs? Nat "count"
+    let (vs, total, more) := completionResult Verif.Gen.Methods.completionLimit (List.range n)
+    let pairsOf (k : String) : Except String (List (Str × Int)) := do
+      let arr ← (← j.getObjVal? k).getArr?
+      let mut out : Array (Str × Int) := #[]
+      for r in arr do
+        let pr ← r.getArr?
+        if pr.size != 2 then throw "bad handler entry"
+        out := out.push (← cpsToChars pr[0]!, ← pr[1]!.getInt?)
+      pure out.toList
+    let found := completionLookup (← pairsOf "resources") (← pairsOf "prompts") (← getVal j "ref_type") (← getVal j "uri") (← getVal j "name")
+    return Json.mkObj [("kept", toJson vs.length), ("total", match total with | some t => toJson t | none => Json.null),
+      ("hasMore", Json.bool more), ("handler", match found with | some t => toJson t | none => Json.null)]
   | _ => throw s!"unknown op {op}"
 
 end Verif.Drv.Rpc
